@@ -381,132 +381,3 @@ pub fn min_non_zero_cap_mailq(size: usize) -> usize {
 pub fn string_clone_stub(_s: &String) -> String {
     String::new()
 }
-
-// ---- exact iteration over entity lists -------------------------------------------------------------
-// Entity lists (`Vec<UserDefinedDataWriter>`, `Vec<RegisteredInstanceInfo>`, ...) live in heap buffers whose
-// headers sit inside other heap-allocated entities; their lengths are opaque to CBMC's constant propagation,
-// so every `for x in &mut list` is unrolled to the unwinding bound, and the pass AFTER the last real element
-// runs the whole loop body on unconstrained memory (measured: check_missed_writer_deadline with one writer /
-// one instance: 27 s when the loops are cut after the real elements, > 11 min and > 12 GB with the extra
-// passes; the extra passes nest multiplicatively).
-// The stubs below replace `Iterator::next` of the three list iterators by a SEMANTICS-PRESERVING version that
-// makes the iteration structure concrete for the element types the harness registered with `plan::<T>(n)`:
-//   * call k <= n : returns what the real iterator returns (`nth(0)` / `next_back()`, neither calls `next`);
-//                   for an `exact` plan a `None` here fails the proof ("list shorter than installed");
-//   * call n+1    : asserts `len() == 0` (CHECKED obligation "list not longer than installed") and returns
-//                   `None` without letting symbolic execution enter the body again;
-// and is the plain real behaviour for every other element type. A plan is keyed by `size_of::<T>()`: a
-// collision with another element type of the same size can only make one of the two checked obligations fail.
-// Nothing is assumed: the stub returns exactly what the real `next` returns whenever the obligations hold.
-//   #[kani::stub(<core::slice::IterMut<'static, u8> as core::iter::Iterator>::next, super::support_part2::iter_mut_next_exact)]
-//   #[kani::stub(<core::slice::Iter<'static, u8> as core::iter::Iterator>::next, super::support_part2::iter_next_exact)]
-//   #[kani::stub(<alloc::vec::IntoIter<u8> as core::iter::Iterator>::next, super::support_part2::into_iter_next_exact)]
-#[derive(Clone, Copy)]
-pub struct IterPlan {
-    pub size: usize,
-    pub limit: usize,
-    pub used: usize,
-    pub exact: bool,
-}
-const NO_PLAN: IterPlan = IterPlan { size: 0, limit: 0, used: 0, exact: false };
-pub const N_PLANS: usize = 6;
-static PLANS: critical_section::Mutex<core::cell::RefCell<[IterPlan; N_PLANS]>> =
-    critical_section::Mutex::new(core::cell::RefCell::new([NO_PLAN; N_PLANS]));
-
-/// Register: lists with element type `T` hold exactly (`exact`) / at most `n` elements. `slot` < N_PLANS.
-pub fn plan<T>(slot: usize, n: usize, exact: bool) {
-    critical_section::with(|cs| {
-        PLANS.borrow(cs).borrow_mut()[slot] = IterPlan { size: core::mem::size_of::<T>(), limit: n, used: 0, exact };
-    });
-}
-/// 0 = no plan for this element size; 1 = within the plan (exact); 2 = within the plan (at most); 3 = plan used up.
-fn plan_step(size: usize) -> u8 {
-    critical_section::with(|cs| {
-        let mut p = PLANS.borrow(cs).borrow_mut();
-        let mut i = 0;
-        while i < N_PLANS {
-            if p[i].size == size && size != 0 {
-                if p[i].used < p[i].limit {
-                    p[i].used += 1;
-                    return if p[i].exact { 1 } else { 2 };
-                }
-                p[i].used = 0;
-                return 3;
-            }
-            i += 1;
-        }
-        0
-    })
-}
-/// The real iterator ended before the plan was used up (allowed for "at most" plans): next loop starts afresh.
-fn plan_reset(size: usize) {
-    critical_section::with(|cs| {
-        let mut p = PLANS.borrow(cs).borrow_mut();
-        let mut i = 0;
-        while i < N_PLANS {
-            if p[i].size == size {
-                p[i].used = 0;
-            }
-            i += 1;
-        }
-    })
-}
-macro_rules! exact_next_body {
-    ($it:ident, $t:ty, $real:expr) => {{
-        let size = core::mem::size_of::<$t>();
-        match plan_step(size) {
-            3 => {
-                kani::assert($it.len() == 0, "VERIF: an entity list is longer than the harness installed");
-                kani::assume($it.len() == 0);
-                None
-            }
-            1 => match $real {
-                Some(x) => Some(x),
-                None => {
-                    kani::assert(false, "VERIF: an entity list is shorter than the harness installed");
-                    kani::assume(false);
-                    None
-                }
-            },
-            2 => {
-                let r = $real;
-                if r.is_none() {
-                    plan_reset(size);
-                }
-                r
-            }
-            _ => $real,
-        }
-    }};
-}
-pub fn iter_mut_next_exact<'a, T>(it: &mut core::slice::IterMut<'a, T>) -> Option<&'a mut T> {
-    exact_next_body!(it, T, it.nth(0))
-}
-pub fn iter_next_exact<'a, T>(it: &mut core::slice::Iter<'a, T>) -> Option<&'a T> {
-    exact_next_body!(it, T, it.nth(0))
-}
-/// `vec::IntoIter::nth` calls `next`; `next_back` does not, and equals `next` for lists of at most one
-/// element — which is asserted (checked) before it is used.
-pub fn into_iter_next_exact<T>(it: &mut alloc::vec::IntoIter<T>) -> Option<T> {
-    let size = core::mem::size_of::<T>();
-    match plan_step(size) {
-        3 => {
-            kani::assert(it.len() == 0, "VERIF: a handle list is longer than the harness planned");
-            kani::assume(it.len() == 0);
-            None
-        }
-        0 => {
-            kani::assert(false, "VERIF: vec::IntoIter over an element type without an iteration plan");
-            kani::assume(false);
-            None
-        }
-        _ => {
-            kani::assert(it.len() <= 1, "VERIF: vec::IntoIter::next modelled by next_back needs at most one element");
-            let r = it.next_back();
-            if r.is_none() {
-                plan_reset(size);
-            }
-            r
-        }
-    }
-}
